@@ -1702,8 +1702,25 @@ def rw_genexp_loop(func, k):
     g = sites[k]
     gen = g.iter.generators[0]
     v = gen.target.id
-    if isinstance(g.iter, ast.ListComp) and not _is_pure(g.iter.elt):
-        return True       # a list is built before the first iteration
+    if isinstance(g.iter, ast.ListComp):
+        # a list is built before the first iteration: only equivalent when the body cannot influence the elements
+        if not _is_pure(g.iter.elt):
+            return True
+        wr = set()
+        for b_ in g.body:
+            for n in ast.walk(b_):
+                if isinstance(n, ast.Name) and isinstance(n.ctx, (ast.Store, ast.Del)):
+                    wr.add(n.id)
+                elif isinstance(n, (ast.Subscript, ast.Attribute)) and isinstance(n.ctx, (ast.Store, ast.Del)):
+                    wr |= _roots(n.value)
+                elif isinstance(n, ast.Call) and isinstance(n.func, ast.Attribute) and n.func.attr in MUTATORS and isinstance(n.func.value, (ast.Name, ast.Subscript, ast.Attribute)):
+                    wr |= _roots(n.func.value)
+                elif isinstance(n, ast.Call) and not _is_pure(n) and not (isinstance(n.func, ast.Attribute) and n.func.attr in MUTATORS):
+                    inner_pure = all(_is_pure(a_) for a_ in n.args)
+                    if not (isinstance(n.func, ast.Name) and n.func.id in ('isinstance', 'len', 'print') and inner_pure):
+                        wr.add('<call>')
+        if wr & (_roots(g.iter.elt) | _roots(gen.iter)) or '<call>' in wr:
+            return True
     par = parents_of(func)
     inside = {id(n) for n in ast.walk(g.iter)}
     if not _free_loop_name(func, v, inside, par, g):
